@@ -101,6 +101,9 @@ ITEMS = {
     'hi': ['lui x5 %hi(L9)'], 'const': ['K9 = 3'], 'label': ['L8:'],
     'longs_neg': ['longs -1 2'], 'bytes_neg': ['bytes -1 -128'], 'shorts_neg': ['shorts -2'], 'ints_neg': ['ints -3'],
     'longlongs_neg': ['longlongs -4'], 'csub': ['sub x8 x8 x9'], 'cand': ['and x8 x8 x9'], 'cslli': ['slli x9 x9 2'],
+    # pack formats without a byte-order character use the host's native sizes (l / L are 8 bytes on LP64)
+    'packL_native': ['pack L 7'], 'packl_native': ['pack l -7'], 'packI_native': ['pack I 7'], 'packq_eq': ['pack =q 1'],
+    'auipc_ret': ['auipc x10 0', 'ret'], 'auipc_jalr': ['auipc x6 16', 'jalr x0 x6 0'], 'auipc_jr': ['auipc x5 0', 'jr x5'],
 }
 
 
@@ -125,6 +128,9 @@ CURATED += [
     ('offset_after_gap_align', [G(0), 'align 16', 'L1:', F4, 'dw %offset(L1)', 'lw x5 x6 %offset(L1)', 'beq x8 x0 L1']),
     # a jal at the very edge of its reach with an align behind the gap: see known finding F1 (C12)
     ('reach_edge_align', ['dh 1', 'sub x8 x8 x9', 'jal x5 L3', F4, G(0), 'align 4', 'L3:', F4]),
+    # a literal, compressible jalr right behind a hand-written auipc (not a call / tail expansion)
+    ('auipc_then_ret', ['L1:', 'auipc x10 0', 'ret', FC, 'L2:', 'j L1', 'dw L2']),
+    ('auipc_then_jalr', ['auipc x6 16', 'jalr x0 x6 0', 'L1:', F4, 'auipc x1 0', 'jalr x1 x1 0', 'L2:', 'j L1', 'dw L2']),
     ('far_call_then_bwd_br', ['call L9', 'L1:', G(0), 'bnez x8 L1', 'j L1', G(1), 'L9:', F4]),
     ('far_tail_then_bwd_j', ['mv x8 x9', 'tail L9', 'L1:', FC, G(0), 'j L1', 'beq x9 x0 L1', G(1), 'L9:', F4]),
     ('labelref_then_regonly', ['L0:', 'bne x8 x9 L0', 'sub x8 x8 x9', 'lui x5 %hi(L0)', 'and x8 x8 x9', 'lw x12 x0 %lo(L0)', 'slli x9 x9 2', 'dw L0', 'add x8 x8 x9', 'j L0', 'ebreak']),
@@ -194,7 +200,7 @@ def random_programs(seed, n, max_len=9):
     rnd = random.Random(1000003 * (seed + 1))
     plain = [F4, FC, 'li x5 5', 'li x5 0x12345678', 'mv x8 x9', 'ret', 'sub x8 x8 x9', 'slli x9 x9 2', 'ebreak',
              'dw 7', 'dh 1', 'dd 1', 'bytes 1 2', 'shorts -1 2', 'ints 1', 'longs -1', 'longlongs 1', 'string ab',
-             'string \u00e9x', 'pack <h 1', 'pack >Q 1', 'align 4', 'align 8', 'align 2', 'K9 = 3', 'addi x9 x9 K9',
+             'string \u00e9x', 'pack <h 1', 'pack >Q 1', 'pack L 7', 'pack l -1', 'auipc x6 0', 'align 4', 'align 8', 'align 2', 'K9 = 3', 'addi x9 x9 K9',
              'lw x9 4(x2)', 'sw x8 8(x9)', 'and x8 x8 x9', 'jr x5', 'nop', 'fence']
     refs = ['beq x8 x0 %s', 'blt x5 x6 %s', 'bnez x9 %s', 'bgt x5 x6 %s', 'j %s', 'jal %s', 'jal x5 %s', 'call %s', 'tail %s',
             'dw %s', 'dw %%offset(%s)', 'li x6 %s', 'addi x5 x5 %%offset(%s)', 'lui x5 %%hi(%s)', 'addi x5 x5 %%lo(%s)',
